@@ -34,7 +34,8 @@ def run(c):
     binary = c.go_build(HARNESS)
     if binary:
         gen(c, binary)
-    c.prove("SH.Props.C11", extra_files=["SH/Model/Norm.lean", "SH/Model/RawTag.lean", "SH/Gen/C11.lean"])
+    c.prove("SH.Props.C11", extra_files=["SH/Model/Norm.lean", "SH/Model/RawTag.lean", "SH/Gen/C11.lean",
+                                          "SH/Lemmas/Utf8C11.lean", "SH/Lemmas/NormC11.lean"])
     drv = c.driver(DRIVER)
     if binary and drv:
         rc, out = c.go_run(binary, [f"-n={c.n(2500, 60000)}"])
@@ -62,7 +63,11 @@ META = {
              "and idempotent; strict normalisation errs only on malformed UTF-8 and otherwise equals forcing — for arbitrary "
              "IsSpace/IsPrint tables with four sanity facts, which are re-proved for the tables of the Go toolchain in use. "
              "The model is tied to the code by replaying generated inputs on the real functions and on the compiled model."),
-    "note": ("Trusted: Lean kernel; correspondence on generated inputs; the Lean re-modelling of utf8 and strconv. See the final "
-             "report for which normalisation theorems are partial."),
+    "note": ("Trusted: Lean kernel; correspondence on generated inputs; the Lean re-modelling of utf8 and strconv. 'Valid value' in "
+             "the theorems is the model of validStringValue itself (its agreement with the English definition - UTF-8, trimmed, "
+             "single ASCII spaces, printable - is checked on the real code by the oracle's independent specValid, and only "
+             "'valid => well-formed UTF-8 and <= maxLen' is proved in Lean). strict = error <=> malformed UTF-8 is proved in the "
+             "direction the property states; the converse is false for the code (bytes after the cut are not examined) and a "
+             "counterexample is kept in the file."),
     "design_ref": "DESIGN.md §6 C11",
 }
